@@ -18,7 +18,7 @@ def any_well(name):
 
 def scen(kind, trough, with_comp=False):
     def make(ex):
-        lw = sym_labware(ex, "L", trough)
+        lw = sym_labware(ex, "L", trough, composition="two") if with_comp else sym_labware(ex, "L", trough)
         env = {"self": lw, "label": sstr("label")}
         if kind == "1 well, scalar volume":
             w, c = any_well("w")
@@ -59,7 +59,7 @@ def scen(kind, trough, with_comp=False):
             env.update(wells=w, volumes=float("nan") if "nan" in kind else float("inf"))
         return env
 
-    return Scenario(f"{'trough' if trough else 'plate'}: {kind}", make)
+    return Scenario(f"{'trough' if trough else 'plate'}{' with two tracked components' if with_comp else ''}: {kind}", make)
 
 
 def _t(i):
@@ -89,7 +89,7 @@ def labware_op(name, sign, exc, limit_clause):
     viol = violation_at(sign)
     return Contract(
         func=L + name, serves=["C02", "C04", "C11", "C05"],
-        scenarios=[scen(k, t) for t in (False, True) for k in KINDS],
+        scenarios=[scen(k, t) for t in (False, True) for k in KINDS] + [scen(KINDS[0], False, True), scen(KINDS[0], True, True), scen(KINDS[1], False, True)],
         raises=[
             ("AssertionError", f"(not {SHAPE_OK}) or (not {VOLS_OK})"),
             ("KeyError", f"{SHAPE_OK} and {VOLS_OK} and not {ALL_KNOWN}"),
